@@ -1,4 +1,5 @@
 import UflVerif.Model.Driver
+import UflVerif.Model.Order
 open UflVerif SExp
 
 /- requests (one S-expression per line), one reply line each:
@@ -41,6 +42,10 @@ def answer (line : String) : String :=
        if x.usesFloatOnly then s!"(okf {fbits f})"
        else s!"(ok {showRat (Expr.eval r.rat .none (idxEnvOf idx) x comp)} {fbits f})"
      | _, _, _ => "(parse-error)")
+  | some (.list [.atom "cmp", a, b]) =>
+    (match Expr.ofSExp a, Expr.ofSExp b with
+     | some x, some y => s!"(ok {Expr.ordStr (Expr.cmp x y)})"
+     | _, _ => "(parse-error)")
   | _ => "(bad-request)"
 
 partial def loop (h : IO.FS.Stream) : IO Unit := do
